@@ -21,8 +21,11 @@ Router level
   * `getResult`    : `get_result`; `none` = KeyError → error response
 
 Server level
-  * `handleFe`     : `handle_fe`. `none` = an exception escapes (`parse_request` on a malformed
-                     request is outside the try blocks).
+  * `handleFe`     : `handle_fe`. Bytes that `parse_request` rejects (no JSON, unknown `clazz`, a
+                     request class with a missing or ill-typed field) are answered with an error
+                     response and the loop goes on (`rejected`). `none` = an exception escapes: no
+                     request does that any more; the `Option` is kept so that the loop's `dead`
+                     branch stays in the model and the theorems say that it is never taken.
   * `handleCtrl`   : `handle_controller` (garbage on a controller socket is caught and logged).
   * `poll`         : one iteration of the `while not is_break` loop of `serve`: the poller returns
                      the sockets that are registered *at poll time* (`ready`), they are handled in
@@ -143,6 +146,7 @@ inductive Out
   | progress (r : Option (List (String × String)))
   | result (r : Option String)
   | bye
+  | rejected         -- error response to frontend bytes that are no request
   | reported (o : ReportOut)
   | notRead          -- socket not registered at poll time: the message stays in the socket
   | died             -- an exception escaped `serve` while handling this event
@@ -156,7 +160,7 @@ def handleFe (s : St) : Req → Option (St × Out)
   | .progressOf ids => some (s, .progress (progressOf s ids))
   | .getResult j d => some (s, .result (getResult s j d))
   | .shutdown => some (s, .bye)
-  | .malformed => none
+  | .malformed => some (s, .rejected)
 
 /-- `handle_controller`. -/
 def handleCtrl (s : St) : Msg → St × Out
